@@ -176,7 +176,7 @@ def check(prop, tier, verif_seed, max_runs=None, budget=None, nworkers=None, wri
     stats = {"pass": 0, "discard": 0, "violation": 0, "harness_error": 0}
     print(f"VERIF_SEED={verif_seed} property={prop} tier={tier} workers={nworkers} budget={bwall}s max_runs={bmax}", flush=True)
     pool = runner.Pool(nworkers, hashseed="0", scratch=scratch)
-    cap = getattr(mod, "WALL_CAP", 60)
+    cap = getattr(mod, "WALL_CAP", 180)  # generous: the machine may be heavily over-subscribed
     try:
         deadline = t0 + bwall
         harness = []
